@@ -202,6 +202,8 @@ package fosite
 //@   ensures result.GetID() == recv.GetID() && result.GetClient() == recv.GetClient() && result.GetSession() == recv.GetSession() && result.GetRequestedAt() == recv.GetRequestedAt()
 //@   ensures result.GetGrantedScopes() == recv.GetGrantedScopes() && result.GetGrantedAudience() == recv.GetGrantedAudience() && result.GetRequestedScopes() == recv.GetRequestedScopes() && result.GetRequestedAudience() == recv.GetRequestedAudience()
 //@   ensures result.GetRequestForm() != nil && fresh(result.GetRequestForm())
+//@   ensures forall k string :: insl(allowedParameters, k) || k == "grant_type" || k == "response_type" || k == "scope" || k == "client_id" ==> formget(result.GetRequestForm(), k) == formget(recv.GetRequestForm(), k)
+//@   ensures forall k string :: !(insl(allowedParameters, k) || k == "grant_type" || k == "response_type" || k == "scope" || k == "client_id") ==> formget(result.GetRequestForm(), k) == ""
 
 //@ interface Session.SetExpiresAt
 //@   sets recv.GetExpiresAt(key) = exp
